@@ -114,4 +114,19 @@ theorem GetArtifactBindingLocation_eq (env : Trans.Env) (sp : Trans.ServiceProvi
   simp only [Outcome.ok_bind']
   cases List.find? (fun e => e.Binding == b) (md.IDPSSODescriptors.flatMap (·.ArtifactResolutionServices)) <;> rfl
 
+/-- C12 (service_provider.go `nameIDFormat`): the name-ID format that goes on the wire is the configured one — transient when none is
+    configured, none at all for "unspecified" — whatever string the configuration holds, a constant of the package or not -/
+theorem nameIDFormat_eq (env : Trans.Env) (sp : Trans.ServiceProvider) :
+    Trans.nameIDFormat env sp =
+      .ok (if sp.AuthnNameIDFormat = "" then "urn:oasis:names:tc:SAML:2.0:nameid-format:transient"
+           else if sp.AuthnNameIDFormat = "urn:oasis:names:tc:SAML:1.1:nameid-format:unspecified" then ""
+           else sp.AuthnNameIDFormat) := by
+  unfold Trans.nameIDFormat
+  simp only [Outcome.pure_eq_ok]
+  by_cases h1 : sp.AuthnNameIDFormat = ""
+  · simp [h1]
+  · by_cases h2 : sp.AuthnNameIDFormat = "urn:oasis:names:tc:SAML:1.1:nameid-format:unspecified"
+    · simp [h2]
+    · simp [h1, h2]
+
 end SamlVerif.TransBinding
